@@ -371,6 +371,7 @@ pub fn run_one(case: &Case, seed: u64) -> Outcome {
     let n = v.n();
     let mut failed = false;
     let mut hist_len = 0usize;
+    let mut hist: Vec<u32> = vec![];
     // half of the cases start with a phase of legal mask+commit steps only, so that positions deeper in
     // the grammar are reached before the hostile calls begin
     let legal_phase = if rng.chance(1, 2) { 4 + rng.below(12) } else { 0 };
@@ -396,7 +397,8 @@ pub fn run_one(case: &Case, seed: u64) -> Outcome {
                             let ok = m.consume(t);
                             if ok {
                                 hist_len += 1;
-                            } else if !m.is_resource_stop() && !m.panicked {
+                                hist.push(t);
+                            } else if !m.is_resource_stop() && !m.panicked && !crate::tp::accepted_with_relaxed_limits(&v, case.slices.clone(), g, &hist, t) {
                                 out.problems.push(("masked_token_rejected".into(), json!({"token": t, "stop": format!("{:?}", m.stop_reason())})));
                                 failed = true;
                             } else {
@@ -429,6 +431,7 @@ pub fn run_one(case: &Case, seed: u64) -> Outcome {
                 let ok = m.consume(t);
                 if ok {
                     hist_len += 1;
+                    hist.push(t);
                     if was_failed {
                         out.problems.push(("failed_engine_accepted_a_token".into(), json!({"token": t})));
                     }
@@ -468,6 +471,7 @@ pub fn run_one(case: &Case, seed: u64) -> Outcome {
                     Ok(Ok(())) => {
                         if k <= hist_len {
                             hist_len -= k;
+                            hist.truncate(hist_len);
                         }
                     }
                     Ok(Err(_)) => {}
